@@ -1,26 +1,522 @@
 package main
 
-// Threads and the os/exec / sync environment (C20). Placeholder: single thread.
+// Threads, sync and os/exec environment (C20).
+//
+// Every `go` statement creates an engine thread, run by its own host goroutine; exactly one
+// thread runs at a time. Scheduling points: sync operations, the exec stub and thread exit; at
+// each of them the engine case-splits on which runnable thread moves next (all choices).
+// Happens-before is tracked with vector clocks (spawn, unlock->lock, Done->Wait); two conflicting
+// accesses to one memory cell that are not ordered are a data race.
 
 import (
+	"fmt"
+	"strings"
+
 	"golang.org/x/tools/go/ssa"
 )
 
-type thread struct{ id int }
+type thread struct {
+	id     int
+	vc     []int
+	resume chan struct{}
+	done   bool
+	waitM  *mutexState
+	waitWG *wgState
+}
 
-type threadWorld struct{}
+type mutexState struct {
+	held  bool
+	owner int
+	relVC []int
+}
 
-var threadStubs = map[string]stubFn{}
+type wgState struct {
+	count int
+	vc    []int
+}
 
-func (p *path) currentThread() *thread { return nil }
+type accessRec struct {
+	tid, clk int
+	site     string
+}
 
-func (p *path) memAccess(fr *frame, ptr *value, write bool, instr ssa.Instruction) {}
+type cellInfo struct {
+	w     accessRec
+	reads map[int]accessRec
+}
+
+type cmdV struct{ argv []string }
+
+type execRule struct {
+	tool, file string
+	ok         *Term
+}
+
+type threadWorld struct {
+	threads  []*thread
+	cur      *thread
+	cells    map[*value]*cellInfo
+	mutexes  map[*value]*mutexState
+	wgs      map[*value]*wgState
+	execLog  []string
+	execPlan []execRule
+	fatal    interface{}
+	killed   bool
+
+	raceClause, deadlockClause string
+	raceReported               map[string]bool
+}
+
+type threadKilled struct{}
+
+var threadStubs = map[string]stubFn{
+	"(*sync.Mutex).Lock":            stubMutexLock,
+	"(*sync.Mutex).Unlock":          stubMutexUnlock,
+	"(*sync.WaitGroup).Add":         stubWGAdd,
+	"(*sync.WaitGroup).Done":        stubWGDone,
+	"(*sync.WaitGroup).Wait":        stubWGWait,
+	"os/exec.Command":               stubExecCommand,
+	"(*os/exec.Cmd).Run":            stubCmdRun,
+	"(*os/exec.Cmd).Output":         stubCmdOutput,
+	"(*os/exec.Cmd).CombinedOutput": stubCmdOutput,
+	"os.WriteFile":                  stubWriteFile,
+}
+
+func (p *path) ensureWorld() *threadWorld {
+	if p.world == nil {
+		main := &thread{id: 0, vc: []int{1}, resume: make(chan struct{})}
+		p.world = &threadWorld{
+			threads: []*thread{main}, cur: main, cells: map[*value]*cellInfo{}, mutexes: map[*value]*mutexState{},
+			wgs: map[*value]*wgState{}, raceClause: "RACE", deadlockClause: "DEADLOCK",
+			raceReported: map[string]bool{},
+		}
+	}
+	return p.world
+}
+
+func (p *path) currentThread() *thread {
+	if p.world == nil {
+		return nil
+	}
+	return p.world.cur
+}
+
+func vcGet(vc []int, i int) int {
+	if i < len(vc) {
+		return vc[i]
+	}
+	return 0
+}
+
+func vcJoin(a, b []int) []int {
+	n := len(a)
+	if len(b) > n {
+		n = len(b)
+	}
+	out := make([]int, n)
+	for i := range out {
+		out[i] = vcGet(a, i)
+		if x := vcGet(b, i); x > out[i] {
+			out[i] = x
+		}
+	}
+	return out
+}
+
+func (t *thread) tick() {
+	for len(t.vc) <= t.id {
+		t.vc = append(t.vc, 0)
+	}
+	t.vc[t.id]++
+}
+
+func (p *path) runnable(t *thread) bool {
+	if t.done {
+		return false
+	}
+	if t.waitM != nil && t.waitM.held {
+		return false
+	}
+	if t.waitWG != nil && t.waitWG.count > 0 {
+		return false
+	}
+	return true
+}
+
+// afterResume is called by a thread that has just been woken up.
+func (p *path) afterResume(t *thread) {
+	w := p.world
+	if w.killed {
+		panic(threadKilled{})
+	}
+	if t.id == 0 && w.fatal != nil {
+		f := w.fatal
+		w.fatal = nil
+		panic(f)
+	}
+}
+
+// schedule is a scheduling point: any runnable thread may move next.
+func (p *path) schedule() {
+	w := p.world
+	if w == nil || len(w.threads) < 2 {
+		return
+	}
+	if p.spec > 0 {
+		panic(specAbort{})
+	}
+	cur := w.cur
+	var run []*thread
+	if p.runnable(cur) {
+		run = append(run, cur) // choice 0 = keep running
+	}
+	for _, t := range w.threads {
+		if t != cur && p.runnable(t) {
+			run = append(run, t)
+		}
+	}
+	if len(run) == 0 {
+		p.reportThreadViolation(w.deadlockClause, "all threads are blocked")
+		p.abort(abortDone, "")
+	}
+	k := 0
+	if len(run) > 1 {
+		k = p.choose(len(run))
+		p.envChoices++
+	}
+	next := run[k]
+	if next == cur {
+		return
+	}
+	w.cur = next
+	next.resume <- struct{}{}
+	if cur.done {
+		return
+	}
+	<-cur.resume
+	p.afterResume(cur)
+}
+
+func (p *path) reportThreadViolation(clause, detail string) {
+	w := p.world
+	if w.raceReported[clause+detail] {
+		return
+	}
+	w.raceReported[clause+detail] = true
+	p.reached[clause]++
+	r, m := p.sol.Check(purposeWitness, true, p.allVars())
+	if r != "sat" {
+		return
+	}
+	p.violations = append(p.violations, &Violation{
+		Property: p.propertyOf(clause), Clause: clause, Model: p.modelToInputs(m),
+		Decisions: append([]int{}, p.decisions...), EnvChoice: true, Detail: detail,
+	})
+}
+
+func (p *path) spawn(fr *frame, fn value, args []value, instr *ssa.Go) {
+	w := p.ensureWorld()
+	parent := w.cur
+	child := &thread{id: len(w.threads), resume: make(chan struct{})}
+	child.vc = append([]int{}, parent.vc...)
+	for len(child.vc) <= child.id {
+		child.vc = append(child.vc, 0)
+	}
+	child.vc[child.id] = 1
+	parent.tick()
+	w.threads = append(w.threads, child)
+	go func() {
+		<-child.resume
+		defer func() {
+			r := recover()
+			if _, killed := r.(threadKilled); killed || w.killed {
+				return
+			}
+			if r != nil {
+				// hand the abort / panic over to the main thread
+				child.done = true
+				w.fatal = r
+				w.cur = w.threads[0]
+				w.threads[0].resume <- struct{}{}
+				return
+			}
+		}()
+		if w.killed {
+			panic(threadKilled{})
+		}
+		p.call(nil, fn, args, &instr.Call)
+		child.done = true
+		child.tick()
+		p.schedule() // thread exit: somebody else moves (or deadlock)
+	}()
+}
+
+// killThreads releases the goroutines of a finished path.
+func (p *path) killThreads() {
+	w := p.world
+	if w == nil {
+		return
+	}
+	w.killed = true
+	for _, t := range w.threads {
+		if t.id != 0 && !t.done {
+			close(t.resume)
+		}
+	}
+}
+
+// memAccess: data-race detection on every load/store through a pointer.
+func (p *path) memAccess(fr *frame, ptr *value, write bool, instr ssa.Instruction) {
+	w := p.world
+	if w == nil || len(w.threads) < 2 {
+		return
+	}
+	t := w.cur
+	ci := w.cells[ptr]
+	if ci == nil {
+		ci = &cellInfo{w: accessRec{tid: -1}, reads: map[int]accessRec{}}
+		w.cells[ptr] = ci
+	}
+	site := fr.pos(instr)
+	me := accessRec{tid: t.id, clk: vcGet(t.vc, t.id), site: site}
+	conflict := func(o accessRec, kind string) {
+		if o.tid >= 0 && o.tid != t.id && o.clk > vcGet(t.vc, o.tid) {
+			p.reportThreadViolation(w.raceClause, fmt.Sprintf("%s: %s (thread %d) vs %s (thread %d)", kind, o.site, o.tid, site, t.id))
+		}
+	}
+	if write {
+		conflict(ci.w, "write-write")
+		for _, r := range ci.reads {
+			conflict(r, "read-write")
+		}
+		ci.w = me
+		ci.reads = map[int]accessRec{}
+	} else {
+		conflict(ci.w, "write-read")
+		ci.reads[t.id] = me
+	}
+}
 
 func (p *path) noteAlloc(fr *frame, ptr *value) {}
 
-func (p *path) spawn(fr *frame, fn value, args []value, instr *ssa.Go) {
-	p.unsupported("go statement")
+// --- sync.Mutex
+
+func (p *path) mutexOf(v value) *mutexState {
+	ptr, ok := v.(*value)
+	if !ok || ptr == nil {
+		p.runtimePanic("nil pointer dereference", "sync.Mutex")
+	}
+	w := p.ensureWorld()
+	m := w.mutexes[ptr]
+	if m == nil {
+		m = &mutexState{}
+		w.mutexes[ptr] = m
+	}
+	return m
 }
 
-func vfExecLog(p *path, _ *frame, a []value) value { p.unsupported("vfExecLog"); return nil }
+func stubMutexLock(p *path, _ *frame, a []value) value {
+	m := p.mutexOf(a[0])
+	w := p.world
+	p.schedule()
+	t := w.cur
+	for m.held {
+		if len(w.threads) < 2 {
+			p.reportThreadViolation(w.deadlockClause, "Lock of a mutex held by the only thread")
+			p.abort(abortDone, "")
+		}
+		t.waitM = m
+		p.schedule()
+		t.waitM = nil
+	}
+	m.held = true
+	m.owner = t.id
+	t.vc = vcJoin(t.vc, m.relVC)
+	return nil
+}
+
+func stubMutexUnlock(p *path, _ *frame, a []value) value {
+	m := p.mutexOf(a[0])
+	w := p.world
+	if !m.held {
+		panic(targetPanic{v: p.mkStr("fatal error: sync: unlock of unlocked mutex"), where: "sync.Mutex.Unlock"})
+	}
+	p.schedule() // scheduling point before the visible operation
+	t := w.cur
+	m.held = false
+	m.relVC = append([]int{}, t.vc...)
+	t.tick()
+	return nil
+}
+
+// --- sync.WaitGroup
+
+func (p *path) wgOf(v value) *wgState {
+	ptr, ok := v.(*value)
+	if !ok || ptr == nil {
+		p.runtimePanic("nil pointer dereference", "sync.WaitGroup")
+	}
+	w := p.ensureWorld()
+	g := w.wgs[ptr]
+	if g == nil {
+		g = &wgState{}
+		w.wgs[ptr] = g
+	}
+	return g
+}
+
+func stubWGAdd(p *path, _ *frame, a []value) value {
+	g := p.wgOf(a[0])
+	g.count += int(p.concreteInt(a[1].(*Term), -8, 8, "WaitGroup.Add"))
+	if g.count < 0 {
+		panic(targetPanic{v: p.mkStr("sync: negative WaitGroup counter"), where: "sync.WaitGroup.Add"})
+	}
+	return nil
+}
+
+func stubWGDone(p *path, _ *frame, a []value) value {
+	g := p.wgOf(a[0])
+	t := p.world.cur
+	g.count--
+	if g.count < 0 {
+		panic(targetPanic{v: p.mkStr("sync: negative WaitGroup counter"), where: "sync.WaitGroup.Done"})
+	}
+	// Done commutes with every operation of the other threads except Wait, which it can only
+	// enable: no scheduling point is needed here (the waiter is chosen at the next one)
+	g.vc = vcJoin(g.vc, t.vc)
+	t.tick()
+	return nil
+}
+
+func stubWGWait(p *path, _ *frame, a []value) value {
+	g := p.wgOf(a[0])
+	w := p.world
+	t := w.cur
+	p.schedule()
+	for g.count > 0 {
+		t.waitWG = g
+		p.schedule()
+		t.waitWG = nil
+	}
+	t.vc = vcJoin(t.vc, g.vc)
+	return nil
+}
+
+// --- os/exec
+
+func stubExecCommand(p *path, _ *frame, a []value) value {
+	name := a[0].(Str)
+	if !name.IsConcrete() {
+		p.unsupported("exec.Command with a symbolic name")
+	}
+	c := &cmdV{argv: []string{name.Concrete()}}
+	args, _ := a[1].([]value)
+	for _, x := range args {
+		s := x.(Str)
+		if !s.IsConcrete() {
+			p.unsupported("exec.Command with a symbolic argument")
+		}
+		c.argv = append(c.argv, s.Concrete())
+	}
+	return host{c}
+}
+
+// normalise maps a command line to (tool, file): tool is argv[0] (the probed tool for `which`),
+// file the first argument that is a planned file name ("" for a probe).
+func (w *threadWorld) normalise(argv []string) (string, string) {
+	tool := argv[0]
+	if tool == "which" && len(argv) > 1 {
+		tool = argv[1]
+	}
+	for _, a := range argv[1:] {
+		for _, r := range w.execPlan {
+			if r.file != "" && r.file == a {
+				return tool, a
+			}
+		}
+	}
+	return tool, ""
+}
+
+func (p *path) execOutcome(recv value) bool {
+	h, ok := recv.(host)
+	if !ok {
+		p.unsupported("exec.Cmd receiver")
+	}
+	c := h.v.(*cmdV)
+	w := p.ensureWorld()
+	tool, file := w.normalise(c.argv)
+	p.schedule()
+	w.execLog = append(w.execLog, tool+"|"+file)
+	for _, r := range w.execPlan {
+		if r.tool == tool && r.file == file {
+			return p.branch(r.ok)
+		}
+	}
+	p.unsupported("exec of a command the harness did not plan: " + strings.Join(c.argv, " "))
+	return false
+}
+
+func (p *path) execError() value {
+	return iface{t: errorDynType, v: p.newError(p.mkStr("exit status 1"), "exec")}
+}
+
+func stubCmdRun(p *path, _ *frame, a []value) value {
+	if p.execOutcome(a[0]) {
+		return iface{}
+	}
+	return p.execError()
+}
+
+// Output / CombinedOutput: same outcome, some bytes on success.
+func stubCmdOutput(p *path, _ *frame, a []value) value {
+	if p.execOutcome(a[0]) {
+		out := []value{}
+		for _, b := range p.mkStr("output\n").b {
+			out = append(out, b)
+		}
+		return tuple{out, iface{}}
+	}
+	return tuple{[]value(nil), p.execError()}
+}
+
+// os.WriteFile: recorded in the command log as "write|<name>"; succeeds.
+func stubWriteFile(p *path, _ *frame, a []value) value {
+	name := a[0].(Str)
+	if !name.IsConcrete() {
+		p.unsupported("os.WriteFile with a symbolic name")
+	}
+	w := p.ensureWorld()
+	p.schedule()
+	w.execLog = append(w.execLog, "write|"+name.Concrete())
+	return iface{}
+}
+
+// vfExecSet(tool, file, succeeds): plans the outcome of the commands of `tool` that mention
+// `file` (file == "": the commands that mention no planned file, i.e. the probe).
+func vfExecSet(p *path, _ *frame, a []value) value {
+	w := p.ensureWorld()
+	w.execPlan = append(w.execPlan, execRule{p.argName(a[0]), p.argName(a[1]), a[2].(*Term)})
+	return nil
+}
+
+// vfExecLog() []string: the command lines run so far, in order.
+func vfExecLog(p *path, _ *frame, a []value) value {
+	w := p.ensureWorld()
+	out := make([]value, len(w.execLog))
+	for i, l := range w.execLog {
+		out[i] = p.mkStr(l)
+	}
+	return out
+}
+
 func vfExecErr(p *path, _ *frame, a []value) value { p.unsupported("vfExecErr"); return nil }
+
+// vfThreads(raceClause, deadlockClause): names the clauses under which races and deadlocks are reported.
+func vfThreads(p *path, _ *frame, a []value) value {
+	w := p.ensureWorld()
+	w.raceClause, w.deadlockClause = p.argName(a[0]), p.argName(a[1])
+	p.reached[w.raceClause]++
+	p.reached[w.deadlockClause]++
+	return nil
+}
